@@ -125,6 +125,7 @@ Qed.
 Section Spread.
   Variable topo : list chain.
   Variable cands ex0 down : list host.
+  Variable exch : list chain.
   Variable n : nat.
   Variable idx : list level.
 
@@ -132,9 +133,56 @@ Section Spread.
   Hypothesis Hlev : forall L, (L < n)%nat -> level_ok cands (nth L idx []).
   Hypothesis Hkey : forall L k hs h, (L < n)%nat -> In (k, hs) (nth L idx []) -> In h hs -> dom topo L h = k.
   Hypothesis Hknd : forall L, (L < n)%nat -> NoDup (map fst (nth L idx [])).
-  Hypothesis Hnest : forall L x y, (S L < n)%nat -> In x cands -> In y cands ->
+  Definition known (h : host) : Prop := In h cands \/ In h ex0.
+  Hypothesis Hnest : forall L x y, (S L < n)%nat -> known x -> known y ->
                                    dom topo L x = dom topo L y -> dom topo (S L) x = dom topo (S L) y.
-  Hypothesis Hvis : forall e, In e ex0 -> In e cands.
+  (* the failure-domain chains of the existing holders, as looked up by allocateTS *)
+  Hypothesis Hexch : exch = map (chain_of topo) ex0.
+  Hypothesis Hexlen : forall e, In e ex0 -> length (chain_of topo e) = n.
+
+  Lemma find_key (l : level) k hs : NoDup (map fst l) -> In (k, hs) l ->
+    find (fun e => N.eqb (fst e) k) l = Some (k, hs).
+  Proof.
+    induction l as [|[k0 h0] r IH]; simpl; intros Hnd Hin; [tauto|].
+    inversion Hnd as [|? ? Hn Hd]; subst. destruct Hin as [Heq|Hin].
+    - inversion Heq; subst. rewrite N.eqb_refl. reflexivity.
+    - destruct (N.eqb_spec k0 k) as [->|Hne]; [|auto].
+      exfalso. apply Hn. apply in_map_iff. exists (k, hs). auto.
+  Qed.
+
+  Lemma find_key_some (l : level) k e : find (fun e => N.eqb (fst e) k) l = Some e -> In e l /\ fst e = k.
+  Proof. intros H. apply find_some in H as [H1 H2]. apply N.eqb_eq in H2. auto. Qed.
+
+  (* a member stands for the level-L domain of some existing holder *)
+  Lemma members_in L m : (L < n)%nat -> In m (domain_members exch L (nth L idx [])) ->
+    exists e hs, In e ex0 /\ In (dom topo L e, hs) (nth L idx []) /\ In m hs.
+  Proof.
+    intros HL Hm. unfold domain_members in Hm. apply in_flat_map in Hm as (c & Hc & Hm).
+    rewrite Hexch in Hc. apply in_map_iff in Hc as (e & <- & He).
+    match type of Hm with In _ (match ?x with _ => _ end) => destruct x as [d|] eqn:Hd end; [|destruct Hm].
+    match type of Hm with In _ (match ?x with _ => _ end) => destruct x as [[k hs]|] eqn:Hf end; [|destruct Hm].
+    destruct hs as [|h0 t]; [destruct Hm|]. destruct Hm as [<-|[]].
+    apply find_key_some in Hf as [Hin Hk]. simpl in Hk. subst k.
+    exists e, (h0 :: t). split; auto. split; [|left; auto].
+    assert (Hdd : dom topo L e = d) by (unfold dom; apply nth_error_nth; exact Hd).
+    rewrite Hdd. exact Hin.
+  Qed.
+
+  (* conversely, an entry whose key is the level-L domain of an existing holder contains a member *)
+  Lemma members_cover L e hs c : (L < n)%nat -> In e ex0 -> In (dom topo L e, hs) (nth L idx []) -> In c hs ->
+    exists m, In m hs /\ In m (domain_members exch L (nth L idx [])).
+  Proof.
+    intros HL He Hin Hc. destruct hs as [|h0 t]; [destruct Hc|].
+    exists h0. split; [left; auto|].
+    unfold domain_members. apply in_flat_map. exists (chain_of topo e). split.
+    - rewrite Hexch. apply in_map; auto.
+    - assert (Hd : nth_error (chain_of topo e) L = Some (dom topo L e)).
+      { unfold dom. apply nth_error_nth'. rewrite (Hexlen e He). exact HL. }
+      match goal with |- In _ (match ?x with _ => _ end) => replace x with (Some (dom topo L e)) by (symmetry; exact Hd) end.
+      match goal with |- In _ (match ?x with _ => _ end) =>
+        replace x with (Some (dom topo L e, h0 :: t)) by (symmetry; exact (find_key _ _ _ (Hknd L HL) Hin)) end.
+      left. reflexivity.
+  Qed.
 
   Definition eligP (L : nat) (D : dname) : Prop :=
     (forall e, In e ex0 -> dom topo L e <> D) /\ (exists c, In c cands /\ dom topo L c = D /\ ~ In c down).
@@ -169,10 +217,10 @@ Section Spread.
       inversion Hnd as [|? ? Hn Hd]; subst. constructor.
       + intros Hin. apply Hn. apply in_map_iff in Hin as (y & Hy & Hyin).
         apply in_map_iff. exists y. split; auto.
-        apply Hnest; auto; [apply Hg; right; auto|apply Hg; left; auto].
+        apply Hnest; auto; left; [apply Hg; right; auto|apply Hg; left; auto].
       + apply IH; auto. intros r Hr. apply Hg. right; auto.
     - intros r Hr. destruct (Hel r Hr) as [H1 _]. destruct (Hg r Hr) as (Hc & _ & Hd). split.
-      + intros e He Heq. apply (H1 e He). apply Hnest; auto.
+      + intros e He Heq. apply (H1 e He). apply Hnest; auto; [right; auto|left; auto].
       + exists r. auto.
   Qed.
 
@@ -225,28 +273,39 @@ Section Spread.
     - auto.
   Qed.
 
+  Lemma host_entry_key L k hs k' hs' x : (L < n)%nat ->
+    In (k, hs) (nth L idx []) -> In (k', hs') (nth L idx []) -> In x hs -> In x hs' -> k = k'.
+  Proof.
+    intros HL H1 H2 Hx Hx'. rewrite <- (Hkey L k hs x HL H1 Hx). apply (Hkey L k' hs' x HL H2 Hx').
+  Qed.
+
   Lemma step_props L num acc o perms :
     (L < n)%nat -> good acc -> NoDup acc -> DE L acc ->
     let lvl := shuffle (hd [] perms) (nth L idx []) in
-    let chosen := fst (pick_n num (ex0 ++ acc) down (map snd lvl) o) in
+    let avoid := domain_members exch L (nth L idx []) ++ ex0 ++ acc in
+    let chosen := fst (pick_n num avoid down (map snd lvl) o) in
     good (acc ++ chosen) /\ NoDup (acc ++ chosen) /\ DE L (acc ++ chosen) /\
     (length chosen <= num)%nat /\
     ((length chosen < num)%nat -> covered L (acc ++ chosen)).
   Proof.
-    intros HL Hg Hnd HDE lvl chosen.
+    intros HL Hg Hnd HDE lvl avoid chosen.
     assert (Hperm : Permutation lvl (nth L idx [])) by apply shuffle_perm.
     assert (Hin_lvl : forall e, In e lvl <-> In e (nth L idx [])).
     { intros e; split; apply Permutation_in; [|apply Permutation_sym]; auto. }
     assert (Hknd' : NoDup (map fst lvl)).
     { eapply Permutation_NoDup; [apply Permutation_map, Permutation_sym; exact Hperm|auto]. }
-    set (kp := pool_keyed (ex0 ++ acc) down lvl).
-    assert (Hkp : map snd kp = pool_of (ex0 ++ acc) down (map snd lvl)) by apply pool_keyed_snd.
-    destruct (pick_n_sel num (ex0 ++ acc) down (map snd lvl) o) as (Hsel & Hlen_le & Hlen_eq).
+    set (kp := pool_keyed avoid down lvl).
+    assert (Hkp : map snd kp = pool_of avoid down (map snd lvl)) by apply pool_keyed_snd.
+    destruct (pick_n_sel num avoid down (map snd lvl) o) as (Hsel & Hlen_le & Hlen_eq).
     fold chosen in Hsel, Hlen_le, Hlen_eq. rewrite <- Hkp in Hsel, Hlen_eq.
     assert (Hgk : forall k p x, In (k, p) kp -> In x p -> dom topo L x = k).
     { intros k p x Hin Hx. apply pool_keyed_in in Hin as (hs & Hhs & -> & _ & _).
       apply filter_In in Hx as [Hx _]. apply (Hkey L k hs x HL); auto. apply Hin_lvl; auto. }
     destruct (sel_keyed (dom topo L) chosen kp Hsel (pool_keyed_nodup _ _ _ Hknd') Hgk) as [Hdist Hfrom].
+    assert (Havoid_acc : forall a, In a acc -> In a avoid).
+    { intros a Ha. unfold avoid. apply in_or_app. right. apply in_or_app. auto. }
+    assert (Havoid_ex : forall a, In a ex0 -> In a avoid).
+    { intros a Ha. unfold avoid. apply in_or_app. right. apply in_or_app. auto. }
     (* facts about each chosen host *)
     assert (Hch : forall c, In c chosen ->
               In c cands /\ ~ In c ex0 /\ ~ In c acc /\ ~ In c down /\
@@ -259,15 +318,17 @@ Section Spread.
       assert (Hcc : In c cands).
       { destruct (Hlev L HL) as [_ Hiff]. apply Hiff. unfold level_hosts. apply in_concat.
         exists hs. split; auto. apply in_map_iff. exists (k, hs). auto. }
-      repeat split; auto.
-      - intros He. apply (Hnoex c); auto. apply in_or_app; auto.
-      - intros He. apply (Hnoex c); auto. apply in_or_app; auto.
-      - intros e He Heq.
-        assert (Hec : In e cands).
-        { apply in_app_or in He as [He|He]; [apply Hvis; auto|apply Hg; auto]. }
+      split; [exact Hcc|]. split; [intros He; apply (Hnoex c); auto|].
+      split; [intros He; apply (Hnoex c); auto|]. split; [exact Hnd'|].
+      intros e He Heq. apply in_app_or in He as [He|He].
+      - (* an existing holder in the same level-L domain: its member is in the entry, which is then skipped *)
+        rewrite Hdk in Heq. rewrite <- Heq in Hhs.
+        destruct (members_cover L e hs c HL He Hhs Hchs) as (m & Hm1 & Hm2).
+        apply (Hnoex m); auto. unfold avoid. apply in_or_app. left. exact Hm2.
+      - assert (Hec : In e cands) by (apply Hg; auto).
         destruct (level_entry_of L e HL Hec) as (hs' & Hhs' & Hein).
         rewrite Heq, Hdk in Hhs'. rewrite (entry_unique L k hs' hs HL Hhs' Hhs) in Hein.
-        apply (Hnoex e He Hein). }
+        apply (Hnoex e); auto. }
     assert (Hgood : good (acc ++ chosen)).
     { intros r Hr. apply in_app_or in Hr as [Hr|Hr]; [apply Hg; auto|].
       destruct (Hch r Hr) as (H1 & H2 & _ & H4 & _). auto. }
@@ -290,20 +351,20 @@ Section Spread.
       + intros x Hxa Hxc. destruct (Hch x Hxc) as (_ & _ & Hna & _). auto.
     - (* fewer than num chosen: the pool was exhausted, every eligible domain is covered *)
       intros Hlt c Hcin [Hel1 (c' & Hc' & Hc'dom & Hc'down)].
-      assert (Hall : length chosen = length kp).
-      { rewrite map_length in Hlen_eq. lia. }
       destruct (level_entry_of L c HL Hcin) as (hs & Hhs & Hchs).
-      (* either an acc host already sits in this domain, or the entry is in the pool *)
       destruct (existsb (fun a => N.eqb (dom topo L a) (dom topo L c)) acc) eqn:Hex.
       + apply existsb_exists in Hex as (a & Ha & Heq). apply N.eqb_eq in Heq.
         exists a. split; auto. apply in_or_app; auto.
       + assert (Hnoacc : forall a, In a acc -> dom topo L a <> dom topo L c).
         { intros a Ha Heq. assert (existsb (fun a => N.eqb (dom topo L a) (dom topo L c)) acc = true); [|congruence].
           apply existsb_exists. exists a. split; auto. apply N.eqb_eq; auto. }
-        assert (Hnoex : forall e, In e (ex0 ++ acc) -> ~ In e hs).
-        { intros e He Hein. apply in_app_or in He as [He|He].
-          - apply (Hel1 e He). apply (Hkey L _ hs e HL Hhs Hein).
-          - apply (Hnoacc e He). apply (Hkey L _ hs e HL Hhs Hein). }
+        assert (Hnoex : forall e, In e avoid -> ~ In e hs).
+        { intros e He Hein. unfold avoid in He. apply in_app_or in He as [He|He].
+          - destruct (members_in L e HL He) as (e0 & hs0 & He0 & Hhs0 & Hin0).
+            apply (Hel1 e0 He0). symmetry. apply (host_entry_key L _ hs _ hs0 e HL Hhs Hhs0 Hein Hin0).
+          - apply in_app_or in He as [He|He].
+            + apply (Hel1 e He). apply (Hkey L _ hs e HL Hhs Hein).
+            + apply (Hnoacc e He). apply (Hkey L _ hs e HL Hhs Hein). }
         assert (Hc'hs : In c' hs).
         { destruct (level_entry_of L c' HL Hc') as (hs' & Hhs' & Hin').
           rewrite Hc'dom in Hhs'. rewrite (entry_unique L _ hs' hs HL Hhs' Hhs) in Hin'. auto. }
@@ -313,11 +374,10 @@ Section Spread.
           rewrite Hnil in H. destruct H. }
         assert (Hinkp : In (dom topo L c, filter (fun h => negb (mem h down)) hs) kp).
         { apply pool_keyed_complete; auto. apply Hin_lvl; auto. }
-        (* pool small => one_from_each => this entry got a host *)
-        assert (Hsmall : (length (pool_of (ex0 ++ acc) down (map snd lvl)) <= num)%nat).
+        assert (Hsmall : (length (pool_of avoid down (map snd lvl)) <= num)%nat).
         { rewrite <- Hkp, map_length. rewrite map_length in Hlen_eq. lia. }
         unfold chosen, pick_n. apply Nat.leb_le in Hsmall. rewrite Hsmall.
-        destruct (one_from_each_covers (pool_of (ex0 ++ acc) down (map snd lvl)) o (pool_of_nonempty _ _ _)
+        destruct (one_from_each_covers (pool_of avoid down (map snd lvl)) o (pool_of_nonempty _ _ _)
                     (filter (fun h => negb (mem h down)) hs)) as (x & Hx1 & Hx2).
         { rewrite <- Hkp. apply in_map_iff. exists (dom topo L c, filter (fun h => negb (mem h down)) hs). auto. }
         exists x. split; [apply in_or_app; right; auto|].
@@ -338,7 +398,7 @@ Section Spread.
     (L <= n)%nat -> good acc -> NoDup acc ->
     (forall L', (L' < L)%nat -> DE L' acc) ->
     (forall L', (L <= L' < n)%nat -> covered L' acc \/ (num = 0%nat /\ DE L' acc)) ->
-    alloc_levels (rev (firstn L idx)) num (ex0 ++ acc) down o perms acc = (acc', 0%nat) ->
+    alloc_levels (rev (firstn L idx)) num exch (ex0 ++ acc) down o perms acc = (acc', 0%nat) ->
     forall L', (L' < n)%nat -> spread_level topo cands ex0 down acc' L' = true.
   Proof.
     induction L as [|L IH]; intros num acc o perms acc' HL Hg Hnd HDE Hcov Halloc L' HL'.
@@ -352,7 +412,8 @@ Section Spread.
         * destruct (Hcov L') as [Hc|[_ Hd]]; [lia| |]; [apply spread_of_covered|apply spread_of_DE]; auto.
       + set (lvl := shuffle (hd [] perms) (nth L idx [])) in *.
         rewrite shuffle_map in Halloc. fold lvl in Halloc.
-        destruct (pick_n (S num') (ex0 ++ acc) down (map snd lvl) o) as [chosen o'] eqn:Hp.
+        rewrite rev_length, firstn_length, Nat.min_l in Halloc by lia.
+        destruct (pick_n (S num') (domain_members exch L (nth L idx []) ++ ex0 ++ acc) down (map snd lvl) o) as [chosen o'] eqn:Hp.
         pose proof (step_props L (S num') acc o perms) as Hstep. simpl in Hstep.
         fold lvl in Hstep. rewrite Hp in Hstep. simpl in Hstep.
         destruct Hstep as (Hg' & Hnd' & HDE' & Hle & Hcov'); [lia|auto|auto|apply HDE; lia|].
@@ -371,11 +432,11 @@ Section Spread.
   Proof. rewrite <- Hlen. apply firstn_all. Qed.
 
   Lemma alloc_spread_section num o perms R :
-    allocate idx num ex0 down o perms = Some R ->
+    allocate idx num exch ex0 down o perms = Some R ->
     forall L', (L' < n)%nat -> spread_level topo cands ex0 down R L' = true.
   Proof.
     unfold allocate. intros H.
-    destruct (alloc_levels (rev idx) num ex0 down o perms []) as [acc rem] eqn:Ha.
+    destruct (alloc_levels (rev idx) num exch ex0 down o perms []) as [acc rem] eqn:Ha.
     destruct rem; [|discriminate]. injection H as <-.
     apply (alloc_spread_loop n num [] o perms acc); auto.
     - intros r [].
